@@ -187,19 +187,27 @@ class Driver:
         return json.loads(line)
 
     def ask_many(self, objs):
-        """pipeline a batch (much faster than one round trip per request)"""
+        """pipeline a batch; a writer thread avoids the pipe-buffer deadlock"""
+        import threading
         objs = list(objs)
-        CH = 2000
+        data = "".join(json.dumps(o, separators=(",", ":")) + "\n" for o in objs)
+
+        def writer():
+            try:
+                self.p.stdin.write(data)
+                self.p.stdin.flush()
+            except Exception:
+                pass
+
+        th = threading.Thread(target=writer, daemon=True)
+        th.start()
         out = []
-        for i in range(0, len(objs), CH):
-            chunk = objs[i:i + CH]
-            self.p.stdin.write("".join(json.dumps(o, separators=(",", ":")) + "\n" for o in chunk))
-            self.p.stdin.flush()
-            for _ in chunk:
-                line = self.p.stdout.readline()
-                if not line:
-                    raise Infra("model driver died")
-                out.append(json.loads(line))
+        for _ in objs:
+            line = self.p.stdout.readline()
+            if not line:
+                raise Infra("model driver died")
+            out.append(json.loads(line))
+        th.join()
         self.n += len(objs)
         return out
 
